@@ -48,6 +48,9 @@ def execute(svc, req, app=None):
         return svc.restart()
     if req['m'] == 'SQL':
         return svc.raw_sql(req['b'])
+    if req['m'] == 'SWEEP':
+        from pv.app import Resp
+        return Resp(200, {}, b'')
     if req['m'] == 'RESTORE':
         svc.restore(getattr(svc, req['b']))
         from pv.app import Resp
